@@ -3,6 +3,7 @@ any device write in that phase is a violation (exception: FAT32 stats when the F
 import vlib, sessions
 from vlib import hexs
 from props import sess_common as sc
+from props import cfsinfo_corr
 
 PROP_FILES = ["Props/C13.v"]
 
@@ -130,3 +131,6 @@ def run(rep, tier, seed):
                        "erased; then mounted and driven by 30 non-mutating calls (list, open, seek, read, extents, label, status_flags, stats), "
                        "ended by unmount or drop; every device write in that phase is counted; distinct = distinct read-only op sequences without write")
     rep.sample({"readonly_ops": [sc.short(l, 70) for l in scripts[0][metas[0][0]:metas[0][0] + 10]]})
+    # FAT32 at image level (Model/VolFsInfo.v): read-only and mutating sessions on volumes whose FS-info words / status byte are
+    # pre-set; the extracted machine against the device after every call, the C13 clause evaluated on the device's write log
+    cfsinfo_corr.stream(rep, tier, vlib.Rng(seed * 2731 + 1313), "C13", n=10 if tier == "quick" else 280)
